@@ -40,7 +40,7 @@ func c17List(tier string) []c17Case {
 			out = append(out, c17Case{f, v, k, tierN(tier, 30, 120), []int{1, 4, 16}[i%3]})
 		}
 	}
-	for _, v := range []string{"source-equal", "source-different", "header-absent", "source-empty", "mixed"} {
+	for _, v := range []string{"source-equal", "source-different", "header-absent", "source-empty", "source-different-with-proxy-record", "source-empty-with-proxy-record", "mixed"} {
 		add("source", v, 3)
 	}
 	for _, v := range []string{"stuck-writer", "failing-reader", "failing-writer", "dial-error", "slow-dial"} {
@@ -196,7 +196,7 @@ func c17Run(tier string, seed int64, idx int) *core.Result {
 				var e *wire.Rpc
 				kind := c.Variant
 				if kind == "mixed" {
-					kind = []string{"source-equal", "source-different", "header-absent", "source-empty"}[n%4]
+					kind = []string{"source-equal", "source-different", "header-absent", "source-empty", "source-different-with-proxy-record", "source-empty-with-proxy-record"}[n%6]
 				}
 				switch kind {
 				case "source-equal":
@@ -205,6 +205,15 @@ func c17Run(tier string, seed int64, idx int) *core.Result {
 					e = env("a1", "a1", 1000+n) // claims to be a1
 				case "source-empty":
 					e = env("", "a1", 2000+n)
+				case "source-different-with-proxy-record":
+					// dressed up as an envelope relayed by another proxy; the source rule is about the
+					// attached connection and knows no such exception
+					e = env("a1", "a1", 1500+n)
+					e.Header.ProxyRecord = []string{"some-proxy"}
+				case "source-empty-with-proxy-record":
+					e = env("", "a1", 2500+n)
+					e.Header.ProxyRecord = []string{"p1", "p2"}
+					e.Header.ProxyNext = []string{"a1"}
 				default:
 					e = &wire.Rpc{Id: uint64(3000 + n), Body: &goatorepo.Body{Data: []byte{1}}}
 				}
